@@ -255,9 +255,14 @@ def cleanup_program(draw: Callable) -> tuple[str, str]:
     vs = ["X", "Y"]
     # defining rules of h/2 (1..3 of them, different bodies and head kinds); the first literal binds X and Y
     nrules = t.i(1, 3)
+    # most programs have a "witness": a literal every defining rule of h contains (so h really implies it);
+    # the users below then mention the corresponding instance next to h / k
+    witness = t.one(["p(X)", "p(Y)", "r(X,Y)", "q(X,Y)", "not s(X)", "r(Y,X)"]) if t.p(65) else ""
     for _ in range(nrules):
-        hargs = t.one(["X,Y", "X,Y", "Y,X", "X,X", "X,1", "X,f(Y)"])
+        hargs = t.one(["X,Y", "X,Y", "X,Y", "Y,X", "X,X", "X,1", "X,f(Y)"])
         body = [t.one(["q(X,Y)", "q(X,Y)", "q(Y,X)", "r(X,Y)", "p(X), p(Y)"])]
+        if witness and witness not in body:
+            body.append(witness)
         for _ in range(t.i(0, 2)):
             body.append(t.one([f"p({_args(t, vs, 1, False)})", f"r({_args(t, vs, 2)})", f"q({_args(t, vs, 2)})", f"{t.neg(100)}p({t.one(vs)})", f"{t.neg(100)}r({_args(t, vs, 2, False)})", f"X {t.op()} Y", "p(X)", "p(Y)", "q(X,Y)", "r(Y,X)"]))
         k = t.i(0, 9)
@@ -298,8 +303,14 @@ def cleanup_program(draw: Callable) -> tuple[str, str]:
         ("not h(A,B)", ""), ("not not h(A,B)", ""), ("#true", ""), ("#false", ""), ("not #false", ""), ("p(A) : #true", ""), ("p(A) : #false", ""),
         ("q(A,B) : p(A), q(A,B)", ""), ("not p(C) : q(A,C), p(A)", ""),
     ]
+    wit_user = []
+    if witness:
+        w = witness.replace("X", "A").replace("Y", "B")
+        wit_user = [(w, "".join(ch for ch in w if ch in "AB") if not w.startswith("not") else "")]
     for _ in range(t.i(1, 3)):
         chosen = [t.one(user_atoms)] + [t.one(extra) for _ in range(t.i(1, 3))]
+        if wit_user and t.p(60):
+            chosen.append(wit_user[0])
         bound = "".join(b for _, b in chosen)
         if "A" not in bound:
             chosen.append(("p(A)", "A"))
@@ -389,7 +400,8 @@ def symmetry_program(draw: Callable) -> tuple[str, str]:
     base = f"pl({','.join(vars_)})"
     stms = define(t, base, f"cand({','.join(vars_)})")
     names = ["sym"]
-    k = t.one([2, 2, 2, 3, 3, 4])
+    k = t.one([2, 2, 2, 2, 3, 3, 4])
+    loose = t.p(35)  # most programs keep the other positions equal (the shape the pass is written for)
     copies = []
     for i in range(1, k + 1):
         args = []
@@ -397,8 +409,7 @@ def symmetry_program(draw: Callable) -> tuple[str, str]:
             if pos == 0:
                 args.append(f"{v}{i}")
             else:
-                how = t.i(0, 9)
-                args.append(v if how < 7 else f"{v}{i}")
+                args.append(f"{v}{i}" if loose and t.p(35) else v)
         copies.append(args)
     lits = [f"pl({','.join(a)})" for a in copies]
     cmps = []
@@ -406,7 +417,7 @@ def symmetry_program(draw: Callable) -> tuple[str, str]:
     for i in range(k):
         for j in range(i + 1, k):
             a, b = copies[i][0], copies[j][0]
-            if t.p(12):
+            if t.p(8):
                 continue  # drop one inequality: must then block (or weaken) the rewrite
             cmps.append(f"not {a} = {b}" if uneq == "noteq" else f"{a} {uneq} {b}")
     # second unequal / tied position
@@ -444,7 +455,7 @@ def symmetry_program(draw: Callable) -> tuple[str, str]:
     elif kind < 10:
         w = "X" if "X" in copies[0] else copies[0][1] if ar > 1 else copies[0][0]
         outer = t.one(["", "", "", f"lead({copies[0][0]})", f"lead({copies[1][0]})", "node(X)" if "X" in copies[0] else "", f"not q({copies[0][0]})"])
-        agg = f"#count{{ {w} : {', '.join(lits + cmps)} }} >= {t.i(1, 2)}"
+        agg = f"#count{{ {w} : {', '.join(lits + cmps)} }} >= {t.one([1, 1, 2])}"
         parts = [agg, outer] if t.p(60) else [outer, agg]
         hd = t.one(["", "", "alarm", f"alarm({copies[0][0]})" if copies[0][0] in outer and "not" not in outer else "alarm"])
         stms.append(f"{hd} :- {', '.join(x for x in parts if x)}.")
@@ -597,11 +608,21 @@ def sum_chains_program(draw: Callable) -> tuple[str, str]:
         elif k2 == 3:
             stms.append(f"a(X) :- X = #sum+{{ L,D : sh(D,L) }}.")
         elif k2 == 4:
-            stms.append(f":~ sh({grp},L). [{sign}L@{t.num(0, 1)}{',' + grp if grp != '_' else ''}]")
+            tup = f"{sign}L@{t.num(0, 1)}{',' + grp if grp != '_' else ''}"
+            stms.append(f":~ sh({grp},L). [{tup}]")
+            if grp == "D" and t.p(45):  # another objective with the very same tuple: must block the rewrite
+                stms.append(t.one([f":~ psh(D,L), late(D). [{tup}]", f":~ bonus(D,L). [{tup}]", f":~ psh(D,L), not day(L). [{tup}]"]))
+                names.append("colliding_objective")
         elif k2 == 5:
             stms.append(f"#minimize{{ {sign}L,D : sh(D,L) }}.")
+            if t.p(45):
+                stms.append(t.one([f"#minimize{{ {sign}L,D : psh(D,L), late(D) }}.", f"#minimize{{ {sign}L,D : bonus(D,L) }}.", f":~ psh(D,L), late(D). [{sign}L@0,D]"]))
+                names.append("colliding_objective")
         elif k2 == 6:
             stms.append(f"#maximize{{ L@1,D : sh(D,L), day(D) }}.")
+            if t.p(45):
+                stms.append(t.one(["#maximize{ L@1,D : psh(D,L), late(D) }.", ":~ bonus(D,L). [-L@1,D]"]))
+                names.append("colliding_objective")
         elif k2 == 7:
             stms.append(f"a(X) :- X = #sum{{ L : sh(_,L) }}.")
             names.append("anon_group")
